@@ -187,6 +187,12 @@ static void runCase(const std::vector<std::string>& lines) {
         }
         else if (cmd == "save") { int k = (int)tk.i64(); std::string path = g_own + "/" + tk.next(); GUARD(O(k).write(path); fprintf(g_out, "ok\n")); }
         else if (cmd == "savex") { int k = (int)tk.i64(); std::string path = tk.next(); GUARD(O(k).write(path); fprintf(g_out, "ok\n")); }
+        else if (cmd == "fsum") {   // size and FNV-1a of a file of the case's own directory
+            std::string path = g_own + "/" + tk.next(); std::ifstream f(path, std::ios::binary);
+            if (!f) fprintf(g_out, "nofile\n");
+            else { uint64_t h = 1469598103934665603ULL; size_t n = 0; char ch; while (f.get(ch)) { h ^= (unsigned char)ch; h *= 1099511628211ULL; ++n; }
+                   fprintf(g_out, "ok %zu %016llx\n", n, (unsigned long long)h); }
+        }
         else if (cmd == "snap") { int k = (int)tk.i64(); GUARD(dumpAll(O(k))); }
         else if (cmd == "print") { int k = (int)tk.i64(); FILE* sv = stdout; (void)sv; std::streambuf* old = std::cout.rdbuf(); std::ostringstream sink; std::cout.rdbuf(sink.rdbuf()); GUARD(O(k).print(); fprintf(g_out, "ok\n")); std::cout.rdbuf(old); }
         else if (cmd == "drop") { int k = (int)tk.i64(); GUARD(delete obj[k]; obj[k] = nullptr; fprintf(g_out, "ok\n")); }
